@@ -82,6 +82,17 @@ OTHER_CTX = {
 }
 
 
+OPTION_OPS = {
+    "parse_pre_expand": ("parse", {"pre_expand": True}),
+    "parse_additional_empty": ("parse", {"additional_expand": set()}),
+    "parse_additional_a": ("parse", {"additional_expand": {"a"}}),
+    "parse_additional_a_pre_not_n": ("parse", {"additional_expand": {"a"}, "pre_expand": True, "do_not_pre_expand": {"n"}}),
+    "expand_pre_a": ("expand", {"pre_expand": True, "templates_to_expand": {"a"}}),
+    "expand_pre_none": ("expand", {"pre_expand": True, "templates_to_expand": set()}),
+    "expand_no_parserfns": ("expand", {"expand_parserfns": False, "expand_invoke": False}),
+}
+
+
 def events(tier):
     ev = []
     for p in PAGES:
@@ -90,6 +101,10 @@ def events(tier):
         ev.append(("page", p, "parse"))
     for p in ("templates", "inv_ok", "soup2", "nw_in_template"):
         ev.append(("page", p, "parse_expand_all"))
+    # the rarely used option combinations of parse() / expand(): whatever they set up for themselves must be gone afterwards
+    for p in ("templates", "nw_in_template"):
+        for op in OPTION_OPS:
+            ev.append(("page", p, op))
     for o in OTHER_CTX:
         ev.append(("other_ctx", o))
     ev.append(("start_section", "Sec"))
@@ -129,6 +144,9 @@ def apply_event(ctx, ev):
                 out = ctx.expand(text)
             elif op == "parse":
                 out = dump(ctx.parse(text))
+            elif op in OPTION_OPS:
+                fn, kw = OPTION_OPS[op]
+                out = dump(ctx.parse(text, **kw)) if fn == "parse" else ctx.expand(text, **kw)
             else:
                 out = dump(ctx.parse(text, expand_all=True))
         except Exception as e:
